@@ -93,3 +93,10 @@ func TestC13(t *testing.T) {
 		Oracle: OracleC13,
 		Fixed:  func() []*Plan { return LoadRegressions("C13") }})
 }
+
+func TestC17Rounds(t *testing.T) {
+	RunCheck(t, CheckSpec{Prop: "C17",
+		Rule:   "(simulator part) plans under every fault class; every acquisition round (identified by the goroutine of its 'attempting_acquire_with_retry' entry and the store operations of that goroutine) must make its first Create 10ms + 90ms x dice after it began, at most four Creates, consecutive attempts separated by the previous attempt's end plus CalculateBackoff(default, retry) computed with the supplied dice, and no Create after a stop call. Non-trivial = a plan with a round of >= 2 attempts; distinct by plan hash.",
+		Gen:    func(t *rapid.T) *Plan { return GenPlan(t, "all", knobsAll) },
+		Oracle: OracleC17Rounds})
+}
